@@ -1265,7 +1265,9 @@ class KullbackLeiblerConvexConj(Functional):
                 xlogy = scipy.special.xlogy(self.prior, 1 - x)
                 res = -self.domain.element(xlogy).inner(self.domain.one())
 
-        if not np.isfinite(res):
+        # Where the prior vanishes, ``xlogy`` is 0 for every argument, but the
+        # functional is still the indicator of ``x <= 1`` there
+        if not np.isfinite(res) or x.ufuncs.max() > 1:
             # In this case, some element was larger than or equal to one
             return np.inf
         else:
